@@ -2,7 +2,8 @@ use rosu_map::section::general::GameMode;
 
 use crate::{
     any::difficulty::skills::StrainSkill, model::mode::ConvertError,
-    taiko::difficulty::DifficultyValues, Beatmap, Difficulty,
+    taiko::{convert, difficulty::DifficultyValues},
+    Beatmap, Difficulty,
 };
 
 use super::difficulty::TaikoSkills;
@@ -30,7 +31,13 @@ impl TaikoStrains {
 }
 
 pub fn strains(difficulty: &Difficulty, map: &Beatmap) -> Result<TaikoStrains, ConvertError> {
-    let map = map.convert_ref(GameMode::Taiko, difficulty.get_mods())?;
+    let mut map = map.convert_ref(GameMode::Taiko, difficulty.get_mods())?;
+
+    // Apply the same mods as `difficulty` so that the strains belong to the
+    // objects the ratings were calculated on.
+    if let Some(seed) = difficulty.get_mods().random_seed() {
+        convert::apply_random_to_beatmap(map.to_mut(), seed);
+    }
 
     let great_hit_window = map
         .attributes()
